@@ -312,8 +312,8 @@ prop('C10',
      design_ref='DESIGN.md §5 C10')
 
 prop('C17',
-     modules=['LarkVerif.Earley', 'LarkVerif.Rename', 'LarkVerif.Mangle', 'LarkVerif.Props.C17'],
-     theorems=['Props.C17.renaming_preserves_language', 'Props.C17.mangle_is_injective', 'Props.C17.mangle_preserves_inlining', 'Props.C17.imported_name_is_alias', 'MangleProto.core_injective'],
+     modules=['LarkVerif.Earley', 'LarkVerif.Rename', 'LarkVerif.Mangle', 'LarkVerif.Prune', 'LarkVerif.Props.C17'],
+     theorems=['Props.C17.renaming_preserves_language', 'Props.C17.mangle_is_injective', 'Props.C17.mangle_preserves_inlining', 'Props.C17.imported_name_is_alias', 'MangleProto.core_injective', 'Props.C17.prune_unused_preserves_language', 'PruneProto.closedB_sound', 'PruneProto.derives_pruned'],
      fingerprints=['lark/load_grammar.py:GrammarBuilder.do_import', 'lark/load_grammar.py:_get_mangle', 'lark/load_grammar.py:_mangle_definition_tree', 'lark/load_grammar.py:GrammarBuilder._extend', 'lark/load_grammar.py:GrammarBuilder._define'],
      rule='(a) random names/prefixes/alias tables through the real _get_mangle vs the Lean mangle; (b) a random grammar is split into a main file and a module (optionally a nested module imported by the module): imports with and '
           'without "->" renames, inlined _helper rules, a local rule named like a non-imported module rule, %override and %extend of imported rules, an imported template; the module files are written to a temp directory and the '
@@ -363,16 +363,16 @@ prop('C05',
      technique='Lean 4 max/sum dynamic-programming proof over AND-OR forests + export of the real SPPF + brute-force optimum + multi-hash-seed determinism runs',
      design_ref='DESIGN.md §5 C05')
 prop('C20',
-     modules=['LarkVerif.Earley', 'LarkVerif.Forest', 'LarkVerif.ForestVisit', 'LarkVerif.Priority', 'LarkVerif.Props.C04', 'LarkVerif.Props.C20'],
+     modules=['LarkVerif.Earley', 'LarkVerif.Forest', 'LarkVerif.ForestVisit', 'LarkVerif.ForestCert', 'LarkVerif.Priority', 'LarkVerif.Props.C04', 'LarkVerif.Props.C20'],
      theorems=['Props.C04.every_derivation_is_in_the_forest', 'Props.C04.every_parse_is_in_the_forest', 'Props.C04.alternatives_append', 'Props.C04.children_multiply',
                'Props.C20.walk_terminates', 'Props.C20.walk_is_depth_first_and_reports_cycles', 'Props.C20.single_visit_enters_each_node_once', 'Props.C20.sub_walk_restores_the_path',
-               'VisitProto.visitKids_visited', 'VisitProto.remaining_lt'],
+               'VisitProto.visitKids_visited', 'VisitProto.remaining_lt', 'Props.C20.certified_forest_encodes_only_parses', 'Props.C20.certified_forest_nodes_sound', 'ForestCert.ignReach_sound'],
      fingerprints=['lark/parsers/earley.py:Parser.predict_and_complete', 'lark/parsers/earley.py:Parser._parse', 'lark/parsers/xearley.py:Parser._parse', 'lark/parsers/earley_forest.py:ForestVisitor.visit', 'lark/parsers/earley_forest.py:ForestToParseTree.visit_packed_node_in', 'lark/parsers/earley_forest.py:PackedNode.sort_key', 'lark/parsers/earley_forest.py:PackedNode.__eq__', 'lark/parsers/earley_forest.py:PackedNode.__init__', 'lark/parsers/earley_forest.py:SymbolNode.add_family', 'lark/parsers/earley_forest.py:SymbolNode.is_ambiguous', 'lark/parsers/earley_forest.py:ForestToParseTree.on_cycle', 'lark/parsers/earley_forest.py:ForestSumVisitor.visit_packed_node_out', 'lark/parsers/earley_forest.py:ForestSumVisitor.visit_symbol_node_out', 'lark/visitors.py:CollapseAmbiguities.__default__'],
      rule='random ambiguous/nullable/cyclic grammars x {basic, dynamic, dynamic_complete}: the forest root from ambiguity="forest" is transformed with TreeForestTransformer(resolve_ambiguity=False), the _ambig nodes expanded, and the set of '
           'unshaped trees compared with the brute-force derivation set (none missing, none extra, none twice); resolve_ambiguity=True must give a member; is_ambiguous must be False for a single derivation; ForestVisitor (plain and '
           'single_visit), ForestTransformer, ForestSumVisitor and both TreeForestTransformer settings must terminate on every forest including cyclic ones (8 s guard), with on_cycle counted. Non-trivial = more than one derivation or cyclic; '
           'distinct by canonical hash. Tiling stream: terminals that may contain the ignored characters, dynamic and dynamic_complete: every tree encoded by the explicit result and by the forest must tile the input (tokens ordered, disjoint, matching their terminal; every gap ignored text). One overlapping terminal AB: /[ab]/ with a derivation oracle that reads a token as any terminal matching it. The tiling stream includes terminals with an optional suffix (a proper prefix of a match may match only partially).',
-     not_proved=['forest soundness (every encoded tree is a derivation) is compared with the enumeration, not proved',
+     not_proved=['forest soundness is certified per forest (ForestCert.checkForest with the soundness theorem), not proved once for all grammars: that lark\'s construction always yields a forest that passes the checker is what the run observes',
                  'the walk theorems are about VisitProto.visit, the Lean mirror of ForestVisitor.visit with the default callbacks (children handed out in order); that the real loop is this function is checked by comparing the complete event sequence (in/out/token/on_cycle per node) on every exported forest; visitor subclasses that hand back other children (ForestToParseTree, user visitors) are covered by the Python DFS-discipline detector only'],
      assumptions=['the brute-force enumerator is an independent oracle'],
      level_text='Theorems: every derivation of the input is present in the forest with all its nodes and packed families (completeness over the chart proved correct in C01); the forest walk (ForestVisitor.visit as a total function, termination measure = nodes off the path) '
